@@ -370,6 +370,34 @@ func (e *Exec) byContract(st *State, fr *Frame, key string, ct *Contract, names 
 		}
 		env.vars[parts[0]] = gv
 	}
+	// `site before-call(<callee>#n) requires[label] expr`: an assertion of the
+	// unit about the state and the arguments (callarg0, callarg1, ...; the
+	// receiver of an interface call is callarg0) right before its n-th call of
+	// the callee
+	if e.contract != nil && fr.Fn == e.fn && len(e.contract.Sites) > 0 {
+		ord := e.callOrdinal(fr.Fn, instr, key)
+		for _, sc := range e.contract.Sites {
+			if !strings.HasPrefix(sc.Callee, "before-call(") {
+				continue
+			}
+			want := strings.TrimSuffix(strings.TrimPrefix(sc.Callee, "before-call("), ")")
+			i := strings.LastIndex(want, "#")
+			if i < 0 || want[i+1:] != fmt.Sprint(ord) || !(key == want[:i] || strings.HasSuffix(key, "."+want[:i])) {
+				continue
+			}
+			senv := e.frameEnv(st, fr)
+			for j, a := range args {
+				senv.vars[fmt.Sprintf("callarg%d", j)] = a
+			}
+			g, cerr := senv.tryEvalBool(sc.Clause.E)
+			if cerr != "" {
+				e.stale[fmt.Sprintf("site %s of %s cannot be evaluated (%s): skipped", sc.Callee, e.unit, cerr)] = true
+				continue
+			}
+			e.emit(st, fmt.Sprintf("assert-before(%s)[%s]", want, joinLabels(sc.Clause.Labels)), "assert", sc.Clause.Labels, g, fmt.Sprintf("%s:%d", sc.Clause.File, sc.Clause.Line))
+			st.assume(g)
+		}
+	}
 	short := key
 	for i, rq := range ct.Requires {
 		g := env.evalBool(rq.E)
@@ -656,6 +684,20 @@ func (e *Exec) callOrdinal(fn *ssa.Function, instr ssa.Instruction, key string) 
 				n++
 				if in == instr {
 					return n
+				}
+			} else if c := ci.Common(); c.IsInvoke() {
+				// interface call: ordinal among the calls of the same interface method
+				if nt := namedOf(c.Value.Type()); nt != nil {
+					k := nt.Obj().Name() + "." + c.Method.Name()
+					if nt.Obj().Pkg() != nil {
+						k = nt.Obj().Pkg().Name() + "." + k
+					}
+					if e.ifaceMethodKey(nt, c.Method.Name(), k) == key {
+						n++
+						if in == instr {
+							return n
+						}
+					}
 				}
 			}
 		}
